@@ -357,11 +357,26 @@ def check_c16(budget, seed):
 
 CHECKS = {"C12": check_c12, "C13": check_c13, "C15": check_c15, "C16": check_c16}
 
+def guarded(pid, budget, seed):
+    """An exception that escapes the real library while a generated (well-formed) case is built or driven is a disagreement
+    with the reference too — never a reason to report nothing."""
+    import traceback
+    try:
+        return CHECKS[pid](budget, seed)
+    except Exception as e:  # noqa: BLE001
+        tb = traceback.extract_tb(e.__traceback__)
+        lib = [f for f in tb if "/statemachine/" in f.filename]
+        where = (lib or tb)[-1]
+        return {"cases": -1, "violation": {"what": "the library raised on a well-formed generated case", "exception": f"{type(e).__name__}: {str(e)[:200]}",
+                                           "where": f"{where.filename.split('/statemachine/')[-1]}:{where.lineno} in {where.name}",
+                                           "in_library_code": bool(lib)}}
+
+
 if __name__ == "__main__":
     pid = sys.argv[1]
     budget = float(sys.argv[2]) if len(sys.argv) > 2 else 5
     seed = int(sys.argv[3]) if len(sys.argv) > 3 else 0
-    res = CHECKS[pid](budget, seed)
+    res = guarded(pid, budget, seed)
     if res.get("violation"):
         os.makedirs("/verif/replays", exist_ok=True)
         path = f"/verif/replays/{pid}-api-{seed}-{res['cases']}.py"
@@ -373,8 +388,8 @@ library disagrees with the reference (case {res['cases']} when this file was wri
 import sys
 sys.path.insert(0, "/verif")
 from runtime import api_checks
-api_checks.MAX_CASES = {res['cases']}
-r = api_checks.CHECKS[{pid!r}](900, {seed})
+api_checks.MAX_CASES = {res['cases']} if {res['cases']} > 0 else None
+r = api_checks.guarded({pid!r}, 60, {seed})
 print(r)
 sys.exit(1 if r.get("violation") else 0)
 ''')
